@@ -34,7 +34,7 @@ INF = 1 << 20
 
 
 def scn(sym, cov, props, D, T=2, cancel=None, cancel2=None, toggle=None, stubborn=None, deadlines=(), redeadline=None,
-        shields="sym", in_child=False, eager=False, J=2, pre_cancel=None, helper=None, native_after=False, post0=False, redeadline2=False, script=(), raise_at=None):
+        shields="sym", in_child=False, eager=False, J=2, pre_cancel=None, helper=None, native_after=False, post0=False, redeadline2=False, script=(), raise_at=None, dl_may_be_inf=False, pre_native=False, deadline_outside=None):
     """props: set of property ids whose clauses are enforced.
     cancel / cancel2: level whose scope is cancelled by the environment at a symbolic instant (or None)
     toggle: (level, value): scope[level].shield = value at a symbolic instant
@@ -43,6 +43,10 @@ def scn(sym, cov, props, D, T=2, cancel=None, cancel2=None, toggle=None, stubbor
     pre_cancel: level cancelled BEFORE it is entered (by the task itself)
     helper: None | 'move_on_after' | 'fail_after' | 'move_on_at' | 'fail_at' -- level D-1 is created through that helper (needs deadlines=(D-1,))
     native_after: after the outermost scope, use asyncio.timeout()/Task.cancelling() (C05)
+    dl_may_be_inf: the initial deadline of the 'deadlines' levels may also be infinite (symbolic flag)
+    pre_native: the host task already carries one native cancellation request (Task.cancel() swallowed earlier)
+    deadline_outside: 'before' assigns the level-0 deadline through the setter BEFORE the scope is entered,
+        'after' assigns a finite deadline to the level-0 scope AFTER it has been left
     raise_at: (level, kind): the level's post-operation is replaced by raising -- 'value' a ValueError, 'group' an
         ExceptionGroup holding only a ValueError, 'group+cancel' sleep(post) and, if that is interrupted, a
         BaseExceptionGroup holding the cancellation exception and a ValueError"""
@@ -59,6 +63,8 @@ def scn(sym, cov, props, D, T=2, cancel=None, cancel2=None, toggle=None, stubbor
     dl = {}
     for i in deadlines:
         dl[i] = sym.int("dl%d" % i, 0, 2 * T + 1)
+        if dl_may_be_inf and sym.bool("dl%d_inf" % i):
+            dl[i] = math.inf
     horizon = 2 * T * D + 2
     evs = []  # environment actions: dicts kind, level, value, t, j
     if cancel is not None:
@@ -145,6 +151,10 @@ def scn(sym, cov, props, D, T=2, cancel=None, cancel2=None, toggle=None, stubbor
             if helper == "fail_at":
                 return anyio.fail_at(d, shield=shield), d
         d = dl.get(i, math.inf)
+        if deadline_outside == "before" and i == 0:
+            sc_ = CancelScope(shield=shield)
+            sc_.deadline = d  # through the setter, while the scope is not active
+            return sc_, d
         return CancelScope(shield=shield, deadline=d), d
 
     async def level(i):
@@ -232,6 +242,12 @@ def scn(sym, cov, props, D, T=2, cancel=None, cancel2=None, toggle=None, stubbor
 
     async def body():
         state["task"] = asyncio.current_task()
+        if pre_native:
+            asyncio.current_task().cancel()
+            try:
+                await asyncio.sleep(0)
+            except asyncio.CancelledError:
+                pass  # swallowed: Task.cancelling() stays at 1 from here on
         c0 = asyncio.current_task().cancelling()
         try:
             await level(0)
@@ -242,6 +258,9 @@ def scn(sym, cov, props, D, T=2, cancel=None, cancel2=None, toggle=None, stubbor
             if isinstance(e_top, BaseExceptionGroup) and any(isinstance(x, asyncio.CancelledError) for x in _leaves(e_top)):
                 state["escaped"] = True
         state["cancelling_after"] = asyncio.current_task().cancelling() - c0
+        state["cancel_called_at_exit"] = {i: sc.cancel_called for i, sc in scopes.items()}
+        if deadline_outside == "after" and 0 in scopes:
+            scopes[0].deadline = loop.time() + 1  # assigning a deadline to a scope that has been left must not arm anything
         # residue probes (C05): later awaits run undisturbed
         for k in range(3):
             try:
@@ -444,6 +463,10 @@ def scn(sym, cov, props, D, T=2, cancel=None, cancel2=None, toggle=None, stubbor
                 if e["cancelling_out"] != e["cancelling_in"]:
                     bad("C05", "cancelling-count-differs-after-absorbing-scope", {"level": e["level"], "in": e["cancelling_in"], "out": e["cancelling_out"]})
                 cov.hit("absorbed-with-pending-uncancel", True)
+    for i, sc in scopes.items():
+        if "cancel_called_at_exit" in state and sc.cancel_called != state["cancel_called_at_exit"].get(i):
+            bad("C05", "scope-cancelled-after-it-was-left", {"level": i})
+            bad("C06", "deadline-fired-after-the-scope-was-left", {"level": i})
     res = loop.residue
     if res is not None and (res["ready"] or res["timers"]):
         bad("C05", "loop-not-idle-after-program-end", res)
@@ -469,6 +492,7 @@ def scn(sym, cov, props, D, T=2, cancel=None, cancel2=None, toggle=None, stubbor
             continue  # something else may have ended the block first / a genuine tie: not judged
         if rf is not None and not fired:
             bad("C06", "deadline-missed", {"level": i, "ref_fire_tick": rf, "exit_tick": e.get("texit"), "dl": dl.get(i)})
+            bad("C03", "scope-not-cancelled-by-its-deadline", {"level": i, "ref_fire_tick": rf, "exit_tick": e.get("texit")})
         if rf is None and fired:
             bad("C06", "deadline-fired-although-not-due", {"level": i, "exit_tick": e.get("texit"), "dl": dl.get(i)})
         if rf is not None and fired:
